@@ -88,45 +88,45 @@ type Snapshot struct {
 
 // State is one symbolic execution path.
 type State struct {
-	e           *Engine
-	script      []Line
-	heap        map[string]string // heap array / ghost name -> current term
-	havocs      []havocRec
-	declared    map[string]bool
-	frames      []*Frame
-	path        []string
-	nonnil      map[string]bool
-	locks       map[string]string // lock identity -> "W" or "R"
-	iters       map[string]*Iter
-	ctxs        map[string]ctxRec // payload term -> WithValue record
-	funcs       map[string]*FuncV // func id term -> static function
-	notes       []string
-	depth       int
-	dead        bool
-	mapOwner    map[string]mapOwner
-	chanOwner   map[string]chanOwner
-	tokens      []buildTok
-	released    []buildTok
-	recvd       map[string]bool
-	borrowed    map[string]string
-	universals  []string
-	frameAxioms []string // "objects allocated before the call are unchanged" facts, instantiated at loads
-	instDone    map[string]bool
-	instSeen    map[string]int
-	written     map[string]bool // heap / ghost arrays written at a non-private index on this path (frame check)
-	havocked    []string        // havoc patterns applied on this path (frame check)
-	known       map[string]string
-	allocConst  map[string]bool
-	sawTokens   bool
-	inDetached  bool
-	loopHavoc   bool
+	e                         *Engine
+	script                    []Line
+	heap                      map[string]string // heap array / ghost name -> current term
+	havocs                    []havocRec
+	declared                  map[string]bool
+	frames                    []*Frame
+	path                      []string
+	nonnil                    map[string]bool
+	locks                     map[string]string // lock identity -> "W" or "R"
+	iters                     map[string]*Iter
+	ctxs                      map[string]ctxRec // payload term -> WithValue record
+	funcs                     map[string]*FuncV // func id term -> static function
+	notes                     []string
+	depth                     int
+	dead                      bool
+	mapOwner                  map[string]mapOwner
+	chanOwner                 map[string]chanOwner
+	tokens                    []buildTok
+	released                  []buildTok
+	recvd                     map[string]bool
+	borrowed                  map[string]string
+	universals                []string
+	frameAxioms               []string // "objects allocated before the call are unchanged" facts, instantiated at loads
+	instDone                  map[string]bool
+	instSeen                  map[string]int
+	written                   map[string]bool // heap / ghost arrays written at a non-private index on this path (frame check)
+	havocked                  []string        // havoc patterns applied on this path (frame check)
+	known                     map[string]string
+	allocConst                map[string]bool
+	sawTokens                 bool
+	inDetached                bool
+	loopHavoc                 bool
 	lastSortPerm, lastSortInv string
-	lockCount   map[string]int    // acquisitions per mutex identity on this path
-	smOps       int               // sync.Map primitives executed on this path
-	lockSnap    *Snapshot         // state right after the most recent lock acquisition
-	lockSnaps   []*Snapshot       // every lock acquisition of this call, in order
-	private     map[string]bool   // objects allocated by this call and not yet published
-	birth       map[string]string // reference term -> allocated-set term at the time the value became known
+	lockCount                 map[string]int    // acquisitions per mutex identity on this path
+	smOps                     int               // sync.Map primitives executed on this path
+	lockSnap                  *Snapshot         // state right after the most recent lock acquisition
+	lockSnaps                 []*Snapshot       // every lock acquisition of this call, in order
+	private                   map[string]bool   // objects allocated by this call and not yet published
+	birth                     map[string]string // reference term -> allocated-set term at the time the value became known
 }
 
 type ctxRec struct {
